@@ -26,14 +26,19 @@ import (
 
 // C07 — sync gate: no target code before approval; failed launches never run and leave no child.
 
-type c07cfg struct{ sync, seccomp, userns, pivot, ucas bool }
+type c07cfg struct {
+	sync, seccomp, userns, pivot, ucas bool
+	// id mappings configured although no user namespace is requested (legal: they are documented as meaningful only
+	// with one): nothing about the launch may change, in particular not the hand-shake around the callback
+	strayMaps bool
+}
 
 func (c c07cfg) String() string {
 	s := ""
 	for _, f := range []struct {
 		b bool
 		n string
-	}{{c.sync, "sync"}, {c.seccomp, "seccomp"}, {c.userns, "userns"}, {c.pivot, "pivot+mounts"}, {c.ucas, "cgroup-after-sync"}} {
+	}{{c.sync, "sync"}, {c.seccomp, "seccomp"}, {c.userns, "userns"}, {c.pivot, "pivot+mounts"}, {c.ucas, "cgroup-after-sync"}, {c.strayMaps, "id-maps-without-userns"}} {
 		if f.b {
 			s += "+" + f.n
 		}
@@ -102,6 +107,10 @@ func c07build(cfg c07cfg, fault string, dir string) (*c07scene, error) {
 		r.UIDMappings = []syscall.SysProcIDMap{{ContainerID: 0, HostID: 0, Size: 1000}}
 		r.GIDMappings = []syscall.SysProcIDMap{{ContainerID: 0, HostID: 0, Size: 1000}}
 		r.GIDMappingsEnableSetgroups = true
+	}
+	if cfg.strayMaps && !cfg.userns {
+		r.UIDMappings = []syscall.SysProcIDMap{{ContainerID: 0, HostID: 0, Size: 1000}}
+		r.GIDMappings = []syscall.SysProcIDMap{{ContainerID: 0, HostID: 0, Size: 1000}}
 	}
 	if cfg.pivot {
 		r.CloneFlags |= unix.CLONE_NEWNS
@@ -244,6 +253,9 @@ func c07forkexec(x *mc.X) {
 	fi := x.Choose(len(c07faults), "fault")
 	f := c07faults[fi]
 	cfg := c07pickCfg(x)
+	if !cfg.userns && cfg.sync {
+		cfg.strayMaps = x.Bool("id-mappings-without-user-namespace")
+	}
 	// long descriptor list whose scratch duplicates walk up to the internal socket (only for a few fault classes)
 	long := false
 	switch f.name {
@@ -285,6 +297,10 @@ func c07forkexec(x *mc.X) {
 	if cfg.sync {
 		sc.r.SyncFunc = func(pid int) error {
 			cbPid = pid
+			if cfg.strayMaps {
+				// a child that does not wait for the approval needs a moment to show it (a pause cannot accuse a child that waits)
+				time.Sleep(100 * time.Millisecond)
+			}
 			if e := exeOf(pid); e != self {
 				x.Failf("C07/forkexec/callback-after-exec", "%s: at the callback /proc/%d/exe is %q, not the launcher", ctxs, pid, e)
 			}
